@@ -118,3 +118,27 @@ Section AtomicProofs.
     eapply HQ; eauto.
   Qed.
 End AtomicProofs.
+
+(* The hypotheses of the two implication-shaped theorems are satisfiable: states are media
+   sequence numbers, the generator shows the number, the writer advances it, two requesters read. *)
+Definition ex_steps : list (@step nat) := [RGen 1; WStep 1; RGen 1; RGen 2; WStep 3; RGen 1].
+
+Example atomic_example_invariant :
+  (forall s, In s (history nat 0 ex_steps) -> (fun r => r <= 3) ((fun s => s) s)) /\
+  responses nat nat (fun s => s) 0 ex_steps = [(1, 0, 0); (1, 1, 1); (2, 1, 1); (1, 2, 3)].
+Proof.
+  split; [|reflexivity].
+  intros s H. simpl in H. repeat (destruct H as [<-|H]; [lia|]). contradiction.
+Qed.
+
+Example atomic_example_relation :
+  (forall i j si sj, i <= j -> nth_error (history nat 0 ex_steps) i = Some si ->
+                     nth_error (history nat 0 ex_steps) j = Some sj -> si <= sj) /\
+  of_requester nat 1 (responses nat nat (fun s => s) 0 ex_steps) = [(1, 0, 0); (1, 1, 1); (1, 2, 3)].
+Proof.
+  split; [|reflexivity].
+  intros i j si sj Hle Hi Hj. simpl in Hi, Hj.
+  destruct i as [|[|[|i]]]; destruct j as [|[|[|j]]]; simpl in Hi, Hj;
+    try lia; try discriminate; try (inversion Hi; inversion Hj; subst; lia);
+    try (destruct i; discriminate); try (destruct j; discriminate).
+Qed.
